@@ -30,6 +30,8 @@ pub fn test_history(p: &AgentProp, h: &History, st: &mut Stats) -> TestResult {
         Err(d) => {
             if d.tag == p.tag {
                 Err(Fail::new(&d.sig, d.msg))
+            } else if let Some((_, sig, msg)) = d.also.iter().find(|(t, _, _)| *t == p.tag) {
+                Err(Fail::new(sig, msg.clone()))
             } else {
                 // a discrepancy that another property states: left to that property's check
                 st.class(&format!("history ended by a discrepancy belonging to {} (not judged here)", d.tag));
